@@ -886,7 +886,7 @@ package http2
 //@ requires typed: 0 <= fr.kind && fr.kind <= 9 && frameTypeOK(fr.fr, fr.kind) && fr.length >= 0 && fr.length <= 16777215
 //@ requires dec: hpackOK(sc.dec)
 //@ requires win: sc.maxWindow >= 0 && sc.currentWindow >= sc.maxWindow / 2 && sc.currentWindow <= sc.maxWindow
-//@ requires swin: strm.window <= 2147483647 && strm.recvBody >= 0
+//@ requires swin: strm.recvBody >= 0
 //@ # ASSUMPTION: int64 window and int body counters do not overflow
 //@ opt noovf=true
 //@ opt noframe=true
@@ -903,9 +903,9 @@ package http2
 //@ # ---- WINDOW_UPDATE on a stream (RFC 7540 6.9, 6.9.1) ----
 //@ let inc = as(fr.fr, *WindowUpdate).increment
 //@ ensures wuzero: k == 8 && s0 != 0 && inc == 0 ==> r0 != nil && iserror(r0) && errcode(r0) == ProtocolError
-//@ ensures wuadd: k == 8 && s0 != 0 && inc > 0 && inc <= 2147483647 ==> strm.window == old(strm.window) + inc &&
+//@ ensures wuadd: k == 8 && s0 != 0 && inc > 0 && inc <= 2147483647 && old(strm.window) <= 2147483647 ==> strm.window == old(strm.window) + inc &&
 //@ |   (r0 == nil <==> old(strm.window) + inc <= 2147483647)
-//@ ensures wuflow: k == 8 && s0 != 0 && inc > 0 && inc <= 2147483647 && old(strm.window) + inc > 2147483647 ==> iserror(r0) && errcode(r0) == FlowControlError
+//@ ensures wuflow: k == 8 && s0 != 0 && inc > 0 && inc <= 2147483647 && old(strm.window) <= 2147483647 && old(strm.window) + inc > 2147483647 ==> iserror(r0) && errcode(r0) == FlowControlError
 //@ # ---- DATA (RFC 7540 6.1) ----
 //@ ensures dataearly: k == 0 && s0 == 2 && !old(strm.headersFinished) ==> r0 != nil && iserror(r0) && errcode(r0) == ProtocolError
 //@ ensures databody: k == 0 && s0 == 2 && old(strm.headersFinished) ==> strm.recvBody == old(strm.recvBody) + len(as(fr.fr, *Data).b)
@@ -973,8 +973,7 @@ package http2
 //@ func (*serverConn).sendData
 //@ props C06 C01 C18
 //@ requires args: scOK(sc) && strm != nil
-//@ requires windows: strm.window <= 2147483647 && sc.clientWindow <= 2147483647
-//@ # ASSUMPTION: the int64 window counters do not overflow downwards (they only go down by what has been sent)
+//@ # ASSUMPTION: the int64 window counters do not overflow (they only go down by what has been sent)
 //@ opt noovf=true
 //@ opt noframe=true
 //@ modifies strm.pendingData, strm.window, sc.clientWindow, strm.bodyBuf, strm.bodyRead, strm.pendingEnd, strm.bodyStream, anybytes(),
@@ -1233,13 +1232,13 @@ package http2
 
 // ---- the stream loop (handleStreams) and what it calls ----
 
-//@ macro strmOK(s) = s != nil && s.ctx != nil && s.window <= 2147483647 && s.recvBody >= 0
+//@ macro strmOK(s) = s != nil && s.ctx != nil && s.recvBody >= 0
 //@ macro strmsOK(strms) = forall(i, 0, len(strms), strmOK(strms[i]))
 
 //@ # frames handed to the stream loop by the read loop (proved at the sends in readLoop: assert typed)
 //@ chan serverConn.reader: self.fr != nil && 0 <= self.kind && self.kind <= 9 && frameTypeOK(self.fr, self.kind) && self.length >= 0 && self.length <= 16777215
 //@ # streams coming back from their handlers
-//@ chan serverConn.handlerDone: self.ctx != nil && self.window <= 2147483647 && self.recvBody >= 0
+//@ chan serverConn.handlerDone: self.ctx != nil && self.recvBody >= 0 && self.bodyStream == nil
 
 //@ func fasthttpResponseHeaders
 //@ props C01
@@ -1252,7 +1251,6 @@ package http2
 //@ func (*serverConn).finishRequest
 //@ props C01 C06
 //@ requires args: scOK(sc) && strm != nil && strm.ctx != nil && hpackOK(sc.enc)
-//@ requires windows: strm.window <= 2147483647 && sc.clientWindow <= 2147483647
 //@ # nothing of a previous response is left on the stream
 //@ requires fresh: strm.bodyStream == nil
 //@ opt noframe=true
@@ -1298,7 +1296,35 @@ package http2
 //@ props C08 C13
 //@ requires recv: strms != nil && forall(i, 0, len(*strms), (*strms)[i] != nil)
 //@ modifies *strms, contents(*strms)
+//@ loop 0: invariant scan: sameslice(*strms, old(*strms)) && forall(k, 0, rangeindex + 1, (*strms)[k].id != id) && strms != nil &&
+//@ |   forall(k, 0, len(*strms), (*strms)[k] == old(*strms)[k])
 //@ # deleting removes at most one entry and keeps every other stream, in order
 //@ ensures shrink: len(*strms) == len(old(*strms)) || len(*strms) == len(old(*strms)) - 1
+//@ ensures removed: len(old(*strms)) > 0 && old(*strms)[0].id == id ==> len(*strms) == len(old(*strms)) - 1
 //@ ensures subset: forall(i, 0, len(*strms), exists(j, 0, len(old(*strms)), (*strms)[i] == old(*strms)[j]))
 //@ ensures nonnil: forall(i, 0, len(*strms), (*strms)[i] != nil)
+
+//@ macro scInv(sc) = scOK(sc) && hpackOK(sc.dec) && hpackOK(sc.enc) && sc.maxWindow >= 0 && sc.currentWindow >= sc.maxWindow / 2 &&
+//@ |   sc.currentWindow <= sc.maxWindow && sc.clientWindow <= 2147483647 && sc.maxRequestTimer != nil
+
+//@ func (*serverConn).flushStreams
+//@ inline
+
+//@ func (*serverConn).handleStreams
+//@ props C06 C08 C09 C10 C13 C14 C17 C18 C01
+//@ requires conn: scInv(sc)
+//@ opt noframe=true
+//@ # ASSUMPTION: int64 window counters and the int stream counter do not overflow
+//@ opt noovf=true
+//@ modifies *sc, anybytes(), family(Stream), family(HeaderField), family(FrameHeader),
+//@ |   family(Data), family(Headers), family(Priority), family(RstStream), family(Settings), family(PushPromise), family(Ping), family(GoAway), family(WindowUpdate), family(Continuation)
+//@ # ---- main loop: the connection object stays usable and every stream in the table is usable ----
+//@ loop 0: invariant ok: scOK(sc) && sc.maxRequestTimer != nil
+//@ loop 0: invariant dec: hpackOK(sc.dec)
+//@ loop 0: invariant enc: hpackOK(sc.enc)
+//@ loop 0: invariant rwin: sc.maxWindow >= 0 && sc.currentWindow >= sc.maxWindow / 2 && sc.currentWindow <= sc.maxWindow
+//@ loop 0: invariant swin: sc.clientWindow <= 2147483647
+//@ loop 0: invariant table: strmsOK(strms)
+//@ # ---- SETTINGS_INITIAL_WINDOW_SIZE: the delta reaches every stream in the table (RFC 7540 6.9.2) ----
+//@ loop 3: invariant conn: scInv(sc)
+//@ loop 3: invariant table: forall(i, 0, len(strms), strms[i] != nil && strms[i].ctx != nil && strms[i].recvBody >= 0)
